@@ -184,15 +184,20 @@ pub fn worker_main(
     // within the limit ends this worker (exit 3); the coordinator restarts the part with that
     // case isolated, where the hang is a verdict about the case.
     let case_started = std::sync::Arc::new(std::sync::atomic::AtomicU64::new(0));
+    // (a case that carries its own exploration budget — the scheduler harnesses — may run that
+    // long; the watchdog then allows budget + 120 s)
+    let case_extra_ms = std::sync::Arc::new(std::sync::atomic::AtomicU64::new(0));
     if !plan.isolate {
         let cs = case_started.clone();
+        let ce = case_extra_ms.clone();
         let limit_ms: u64 = std::env::var("MC_CASE_LIMIT_S").ok().and_then(|s| s.parse().ok()).unwrap_or(90) * 1000;
         let t0w = t0;
         std::thread::spawn(move || loop {
             std::thread::sleep(Duration::from_millis(500));
             let st = cs.load(std::sync::atomic::Ordering::SeqCst);
-            if st != 0 && (t0w.elapsed().as_millis() as u64).saturating_sub(st) > limit_ms {
-                eprintln!("WATCHDOG: the current case has been running for more than {} s", limit_ms / 1000);
+            let lim = limit_ms.max(ce.load(std::sync::atomic::Ordering::SeqCst));
+            if st != 0 && (t0w.elapsed().as_millis() as u64).saturating_sub(st) > lim {
+                eprintln!("WATCHDOG: the current case has been running for more than {} s", lim / 1000);
                 std::process::exit(3);
             }
         });
@@ -222,6 +227,8 @@ pub fn worker_main(
             last_ck = Instant::now();
         }
         let _ = std::fs::write(&cur_path, pos.to_string());
+        let own_budget_s = case.get("budget_s").and_then(|x| x.as_u64()).unwrap_or(0);
+        case_extra_ms.store(if own_budget_s > 0 { (own_budget_s + 120) * 1000 } else { 0 }, std::sync::atomic::Ordering::SeqCst);
         case_started.store((t0.elapsed().as_millis() as u64).max(1), std::sync::atomic::Ordering::SeqCst);
         let b = case.get("bound").and_then(|x| x.as_u64()).unwrap_or(0);
         if cur_bound != Some(b) {
@@ -243,7 +250,7 @@ pub fn worker_main(
             // (after three deaths in this part every remaining case gets a process of its own)
             // the watchdog of the isolated child is this timeout; the parent's is suspended
             case_started.store(0, std::sync::atomic::Ordering::SeqCst);
-            run_isolated(prop, case, 60, true)
+            run_isolated(prop, case, if own_budget_s > 0 { own_budget_s + 120 } else { 60 }, true)
         } else {
             run_guarded(engine.as_mut(), prop, case)
         };
